@@ -86,7 +86,7 @@ func writeWork(c *run.Ctx, name, content string) error {
 func init() {
 	register("C03", "exploration", symCheck(symSpec{
 		bigFam: "c03",
-		module: "Gen_C03", partsQ: 4, partsT: 16, assignQ: 6, assignT: 12, timeoutT: 40 * time.Minute,
+		module: "Gen_C03", partsQ: 4, partsT: 16, assignQ: 6, assignT: 8, timeoutT: 40 * time.Minute,
 		rule: "one case per (operation, operand shapes, parameter) of the grid enumerated by TLC (quick: Shapes(3,2) U Shapes(2,3) + 3 high-rank shapes, every broadcast-compatible ordered pair, operation rotated by seed; thorough: Shapes(4,3) U Shapes(6,2), every pair x every operation); every result element compared with the term of the specification under several float64 assignments; distinct = distinct (op, shapes, parameters); non-trivial = some tensor has more than one element",
 	}))
 	register("C04", "exploration", symCheck(symSpec{
